@@ -175,7 +175,7 @@ contains statements only) -/
 /-- the configuration underlying a kind is valid -/
 def KindValid : Kind → Prop
   | .exp cfg => cfg.Valid
-  | .rand cfg _ => cfg.Valid
+  | .rand cfg _ _ => cfg.Valid
   | _ => True
 
 
@@ -223,7 +223,7 @@ theorem policy_capped_aux (k : Kind) (a v : Nat) (h : k.base a = some v) : v ≤
   | none => simp [Kind.base] at h
   | fixed d => simp [Kind.base] at h; simp [Kind.bound, h]
   | exp cfg => simp [Kind.base] at h; rw [← h]; exact ideal_capped_aux cfg a
-  | rand cfg pct => simp [Kind.base] at h; rw [← h]; exact ideal_capped_aux cfg a
+  | rand cfg fn fd => simp [Kind.base] at h; rw [← h]; exact ideal_capped_aux cfg a
 
 theorem policy_monotone_aux (k : Kind) (hv : KindValid k) (a b va vb : Nat) (hab : a ≤ b)
     (ha : k.base a = some va) (hb : k.base b = some vb) : va ≤ vb := by
@@ -231,20 +231,259 @@ theorem policy_monotone_aux (k : Kind) (hv : KindValid k) (a b va vb : Nat) (hab
   | none => simp [Kind.base] at ha
   | fixed d => simp [Kind.base] at ha hb; omega
   | exp cfg => simp [Kind.base] at ha hb; rw [← ha, ← hb]; exact ideal_mono cfg hv hab
-  | rand cfg pct => simp [Kind.base] at ha hb; rw [← ha, ← hb]; exact ideal_mono cfg hv hab
+  | rand cfg fn fd => simp [Kind.base] at ha hb; rw [← ha, ← hb]; exact ideal_mono cfg hv hab
 
 theorem allowed_choice_sound_aux (cfg : Cfg) (hv : cfg.Valid) (a v : Nat) (h : allowedExp cfg a v = true) :
     v ≤ cfg.capNs ∧ v ≤ ideal cfg a + tol (ideal cfg a) ∧ ideal cfg a ≤ v + tol (ideal cfg a) := by
   unfold allowedExp at h
   rw [idealExec_eq cfg hv] at h
-  simp at h
-  exact ⟨h.1, near_spec h.2⟩
+  split at h
+  · have hv' : v = ideal cfg a := by simpa using h
+    subst hv'
+    exact ⟨ideal_capped_aux cfg a, Nat.le_add_right _ _, Nat.le_add_right _ _⟩
+  · simp at h
+    exact ⟨h.1, near_spec h.2⟩
 
 theorem jittered_ideal_bounded_aux (cfg : Cfg) (a pct r s : Nat) (hp : pct ≤ 100) (hr : r ≤ s) :
     jittered (ideal cfg a) pct r s ≤ 2 * cfg.capNs := by
   have h1 := ((show jitterLo (ideal cfg a) pct ≤ jittered (ideal cfg a) pct r s ∧ jittered (ideal cfg a) pct r s ≤ jitterHi (ideal cfg a) pct ∧ jitterLo (ideal cfg a) pct ≤ ideal cfg a ∧ ideal cfg a ≤ jitterHi (ideal cfg a) pct ∧ jitterHi (ideal cfg a) pct ≤ 2 * ideal cfg a from ⟨(jittered_bounds _ pct r s hr).1, (jittered_bounds _ pct r s hr).2, jitterLo_le _ pct, le_jitterHi _ pct, jitterHi_le _ pct hp⟩))
   have h2 := ideal_capped_aux cfg a
   omega
+
+/-! ## jitter with an arbitrary rational factor `fn/fd` -/
+
+theorem jitterLo_eq_Q (x pct : Nat) : jitterLo x pct = jitterLoQ x pct 100 := rfl
+theorem jitterHi_eq_Q (x pct : Nat) : jitterHi x pct = jitterHiQ x pct 100 := rfl
+theorem jittered_eq_Q (x pct r s : Nat) : jittered x pct r s = jitteredQ x pct 100 r s := rfl
+
+theorem jitterLoQ_le (x fn fd : Nat) : jitterLoQ x fn fd ≤ x := by
+  unfold jitterLoQ
+  apply Nat.div_le_of_le_mul
+  rw [Nat.mul_comm fd x]
+  exact Nat.mul_le_mul_left _ (Nat.sub_le _ _)
+
+theorem le_jitterHiQ (x fn fd : Nat) (hd : 0 < fd) : x ≤ jitterHiQ x fn fd := by
+  unfold jitterHiQ
+  rw [Nat.le_div_iff_mul_le hd]
+  exact Nat.mul_le_mul_left _ (Nat.le_add_right _ _)
+
+theorem jitterHiQ_le (x fn fd : Nat) (h : fn ≤ fd) : jitterHiQ x fn fd ≤ 2 * x := by
+  unfold jitterHiQ
+  apply Nat.div_le_of_le_mul
+  have : x * (fd + fn) ≤ x * (2 * fd) := Nat.mul_le_mul_left _ (by omega)
+  calc x * (fd + fn) ≤ x * (2 * fd) := this
+    _ = fd * (2 * x) := by rw [Nat.mul_comm 2 fd, ← Nat.mul_assoc, Nat.mul_comm x fd, Nat.mul_assoc, Nat.mul_comm x 2]
+
+theorem jitteredQ_bounds (x fn fd r s : Nat) (hd : 0 < fd) (hr : r ≤ s) :
+    jitterLoQ x fn fd ≤ jitteredQ x fn fd r s ∧ jitteredQ x fn fd r s ≤ jitterHiQ x fn fd := by
+  unfold jitteredQ
+  have hlo := jitterLoQ_le x fn fd
+  have hhi := le_jitterHiQ x fn fd hd
+  refine ⟨Nat.le_add_right _ _, ?_⟩
+  have : (jitterHiQ x fn fd - jitterLoQ x fn fd) * r / s ≤ jitterHiQ x fn fd - jitterLoQ x fn fd := by
+    apply Nat.div_le_of_le_mul
+    rw [Nat.mul_comm s]
+    exact Nat.mul_le_mul_left _ hr
+  omega
+
+/-- a factor 0 leaves the value alone -/
+theorem jitterQ_zero (x fd : Nat) (hd : 0 < fd) : jitterLoQ x 0 fd = x ∧ jitterHiQ x 0 fd = x := by
+  unfold jitterLoQ jitterHiQ
+  simp [Nat.mul_div_cancel _ hd]
+
+/-- what the constructor stores is a factor in `[0,1]` whenever it is a number at all (`fd = 0 = fn` is NaN) -/
+theorem clampFactor_le (fn fd : Nat) : (clampFactor fn fd).1 ≤ (clampFactor fn fd).2 := by
+  unfold clampFactor; split <;> simp <;> omega
+
+theorem clampFactor_pos (fn fd : Nat) (h : 0 < fn ∨ 0 < fd) : 0 < (clampFactor fn fd).2 := by
+  unfold clampFactor; split <;> simp <;> omega
+
+theorem clampFactor_id (fn fd : Nat) (h : fn ≤ fd) : clampFactor fn fd = (fn, fd) := by
+  unfold clampFactor; split
+  · omega
+  · rfl
+
+theorem allowed_rand_sound_aux (cfg : Cfg) (hv : cfg.Valid) (fn fd a v : Nat) (h : allowedRand cfg fn fd a v = true) :
+    jitterLoQ (ideal cfg a) fn fd ≤ v + tol (ideal cfg a) + 1 ∧
+    v ≤ jitterHiQ (ideal cfg a) fn fd + 2 * tol (ideal cfg a) + 1 ∧ v ≤ durMax := by
+  unfold allowedRand at h
+  rw [idealExec_eq cfg hv] at h
+  simp at h
+  exact ⟨h.1.1, h.1.2, h.2⟩
+
+/-! ## the exact region -/
+
+theorem pow2Of_spec {num den j : Nat} (h : pow2Of num den = some j) : num = 2 ^ j * den := by
+  unfold pow2Of at h
+  have := List.find?_some h
+  simpa using this
+
+/-- with a multiplier `2^j` the un-capped value is `initial · 2^(j·e)`, an integer: no rounding anywhere -/
+theorem raw_pow2 (cfg : Cfg) (j : Nat) (hd : 0 < cfg.den) (h : cfg.num = 2 ^ j * cfg.den) (a : Nat) :
+    raw cfg a = cfg.initial * 2 ^ (j * expo a) := by
+  unfold raw
+  rw [h, Nat.mul_pow, ← Nat.pow_mul, ← Nat.mul_assoc]
+  exact Nat.mul_div_cancel _ (Nat.pow_pos hd)
+
+theorem exactRegion_valid {cfg : Cfg} (h : exactRegion cfg = true) : cfg.Valid := by
+  unfold exactRegion at h
+  simp at h
+  obtain ⟨⟨⟨⟨hd, _⟩, _⟩, _⟩, hp⟩ := h
+  obtain ⟨j, hj⟩ := Option.isSome_iff_exists.mp hp
+  have := pow2Of_spec hj
+  refine ⟨hd, ?_⟩
+  rw [this]
+  exact Nat.le_mul_of_pos_left _ (Nat.pow_pos (by decide))
+
+/-! ## the history of accepted observations is monotone in the attempt number -/
+
+/-- every two accepted observations of one configuration are ordered like their attempt numbers
+(in particular: the same attempt, the same value) -/
+def HistMono (l : List (Nat × Nat)) : Prop := ∀ p ∈ l, ∀ q ∈ l, p.1 ≤ q.1 → p.2 ≤ q.2
+
+theorem obsOk_spec {a v : Nat} {l : List (Nat × Nat)} (h : obsOk a v l = true) :
+    ∀ p ∈ l, (p.1 ≤ a → p.2 ≤ v) ∧ (a ≤ p.1 → v ≤ p.2) := by
+  intro p hp
+  unfold obsOk at h
+  have := (List.all_eq_true.mp h) p hp
+  simp at this
+  constructor
+  · intro h1; rcases this.1 with h2 | h2
+    · omega
+    · exact h2
+  · intro h1; rcases this.2 with h2 | h2
+    · omega
+    · exact h2
+
+theorem HistMono_cons {a v : Nat} {l : List (Nat × Nat)} (hl : HistMono l) (h : obsOk a v l = true) :
+    HistMono ((a, v) :: l) := by
+  have hs := obsOk_spec h
+  intro p hp q hq hpq
+  rcases List.mem_cons.mp hp with rfl | hp' <;> rcases List.mem_cons.mp hq with rfl | hq'
+  · exact Nat.le_refl _
+  · exact (hs q hq').2 hpq
+  · exact (hs p hp').1 hpq
+  · exact hl p hp' q hq' hpq
+
+def HistInv (h : Hist) : Prop := ∀ cfg, HistMono (histGet h cfg)
+
+theorem histGet_set_same (h : Hist) (cfg : Cfg) (l : List (Nat × Nat)) : histGet (histSet h cfg l) cfg = l := by
+  induction h with
+  | nil => simp [histSet, histGet]
+  | cons hd tl ih =>
+    obtain ⟨c, l0⟩ := hd
+    unfold histSet
+    split
+    · rename_i hc; simp [histGet, hc]
+    · rename_i hc; simp [histGet, hc, ih]
+
+theorem histGet_set_other (h : Hist) (cfg c' : Cfg) (l : List (Nat × Nat)) (hne : c' ≠ cfg) :
+    histGet (histSet h cfg l) c' = histGet h c' := by
+  induction h with
+  | nil => simp [histSet, histGet]; intro h; exact absurd h.symm hne
+  | cons hd tl ih =>
+    obtain ⟨c, l0⟩ := hd
+    unfold histSet
+    split
+    · rename_i hc
+      subst hc
+      have : ¬ c = c' := fun h => hne h.symm
+      simp [histGet, this]
+    · rename_i hc
+      simp only [histGet]
+      split
+      · rfl
+      · exact ih
+
+theorem HistInv_nil : HistInv [] := by
+  intro cfg p hp; simp [histGet] at hp
+
+theorem record_HistInv {h h' : Hist} {k : Kind} {a : Nat} {o : Obs} (hi : HistInv h) (hr : record h k a o = some h') :
+    HistInv h' := by
+  cases k <;> cases o <;> simp [record] at hr <;> try (subst hr; exact hi)
+  rename_i cfg v
+  obtain ⟨hok, rfl⟩ := hr
+  intro c'
+  by_cases hc : c' = cfg
+  · subst hc
+    rw [histGet_set_same]
+    exact HistMono_cons (hi c') hok
+  · rw [histGet_set_other _ _ _ _ hc]
+    exact hi c'
+
+theorem record_keeps {h h' : Hist} {k : Kind} {a : Nat} {o : Obs} (hr : record h k a o = some h') (cfg : Cfg)
+    (p : Nat × Nat) (hp : p ∈ histGet h cfg) : p ∈ histGet h' cfg := by
+  cases k <;> cases o <;> simp [record] at hr <;> try (subst hr; exact hp)
+  rename_i c v
+  obtain ⟨_, rfl⟩ := hr
+  by_cases hc : cfg = c
+  · subst hc
+    rw [histGet_set_same]
+    exact List.mem_cons_of_mem _ hp
+  · rw [histGet_set_other _ _ _ _ hc]
+    exact hp
+
+theorem record_exp {h h' : Hist} {cfg : Cfg} {a v : Nat} (hr : record h (.exp cfg) a (.ns v) = some h') :
+    (a, v) ∈ histGet h' cfg := by
+  simp [record] at hr
+  obtain ⟨_, rfl⟩ := hr
+  rw [histGet_set_same]
+  exact List.mem_cons_self
+
+/-- one `probe backoff` line keeps the invariant -/
+theorem probe_HistInv (st : St) (ws : List String) (h : HistInv st.hist) : HistInv (probe st ws).1.hist := by
+  unfold probe
+  simp only
+  split
+  · split
+    · rename_i h' hr
+      exact record_HistInv h hr
+    · exact h
+  · exact h
+
+/-- an accepted un-jittered observation is allowed for its kind and recorded … -/
+theorem probe_records (st : St) (ws : List String) (cfg : Cfg) (v : Nat)
+    (hk : parseKind (kvMerge st.hdr (parseKv ws)) = .exp cfg) (ho : parseObs ws = .ns v)
+    (hacc : (probe st ws).2 ≠ [.raw "choice-not-allowed"]) :
+    ((kvMerge st.hdr (parseKv ws)).nat "attempt" 0, v) ∈ histGet (probe st ws).1.hist cfg ∧
+    allowedExp cfg ((kvMerge st.hdr (parseKv ws)).nat "attempt" 0) v = true := by
+  unfold probe at hacc ⊢
+  simp only [hk, ho] at hacc ⊢
+  split
+  · rename_i hall
+    split
+    · rename_i h' hr
+      exact ⟨record_exp hr, by simpa [Kind.allowed] using hall⟩
+    · rename_i hno
+      simp [hall, hno] at hacc
+  · rename_i hall
+    simp [hall] at hacc
+
+/-- … and nothing recorded is ever forgotten -/
+theorem probe_keeps (st : St) (ws : List String) (cfg : Cfg) (p : Nat × Nat) (hp : p ∈ histGet st.hist cfg) :
+    p ∈ histGet (probe st ws).1.hist cfg := by
+  unfold probe
+  simp only
+  split
+  · split
+    · rename_i h' hr
+      exact record_keeps hr cfg p hp
+    · exact hp
+  · exact hp
+
+/-- the whole run of the driver's machine -/
+def runM (st : St) (ops : List (List String)) : St := ops.foldl (fun s ws => (machine.step s ws).1) st
+
+theorem step_HistInv (st : St) (ws : List String) (h : HistInv st.hist) : HistInv (machine.step st ws).1.hist := by
+  show HistInv (match ws with | "probe" :: "backoff" :: rest => probe st rest | _ => (st, [])).1.hist
+  split
+  · exact probe_HistInv st _ h
+  · exact h
+
+theorem runM_HistInv (ops : List (List String)) (st : St) (h : HistInv st.hist) : HistInv (runM st ops).hist := by
+  induction ops generalizing st with
+  | nil => exact h
+  | cons ws tl ih => exact ih _ (step_HistInv st ws h)
 
 /-! ## the builder: a fold of setters whose result depends only on the last value of each setting -/
 
